@@ -159,6 +159,12 @@ pub fn diff_rec(exp: &Rec, got: &Rec, m: FloatMode) -> Option<Diff> {
     if exp.format != got.format {
         return d("format", "-", "keys-differ", format!("{:?} vs {:?}", exp.format, got.format));
     }
+    // no FORMAT keys at all: a sites-only record; BCF readers hand back one empty value list per
+    // sample of the header, which is the same thing
+    let no_values = |r: &Rec| r.format.is_empty() && r.samples.iter().all(|s| s.iter().all(|v| v.is_none()));
+    if no_values(exp) && no_values(got) {
+        return None;
+    }
     if exp.samples.len() != got.samples.len() {
         return d("sample", "-", "count-differs", format!("{} vs {}", exp.samples.len(), got.samples.len()));
     }
